@@ -456,6 +456,7 @@ func genDNA(r *gen.Rand, model string) (p dnaParams, classes []string) {
 	case "jc":
 	case "k2p":
 		p.Kappa, kc = genKappa(r)
+		p.AsConstructed = p.Kappa == 1 && r.Bool()
 	case "f81":
 		p.Pi, pc = genPi(r)
 	case "f84":
@@ -534,7 +535,9 @@ func mkDNA(p dnaParams) (models.Model, error) {
 		return m, m.InitModel()
 	case "k2p":
 		m := dna.NewK2PModel()
-		m.InitModel(p.Kappa)
+		if !(p.AsConstructed && p.Kappa == 1) {
+			m.InitModel(p.Kappa)
+		}
 		return m, nil
 	case "f81":
 		m := dna.NewF81Model()
